@@ -79,6 +79,11 @@ WRAPS := socket bind listen connect accept4 accept send recv close getsockname \
 	nanosleep usleep sleep select pselect ppoll epoll_wait epoll_pwait \
 	recvfrom recvmsg sendto sendmsg read write perror \
 	SSL_CTX_new SSL_CTX_free SSL_new SSL_free
+ifeq ($(FLAVOUR),tsan)
+  # preemption points at the detector's atomic entry points: a window between a relaxed load and store is then schedulable
+  WRAPS += __tsan_atomic64_load __tsan_atomic64_store __tsan_atomic8_load __tsan_atomic8_store \
+	__tsan_atomic32_load __tsan_atomic32_store __tsan_atomic64_fetch_add __tsan_atomic32_fetch_add
+endif
 WRAPFLAGS := $(foreach w,$(WRAPS),-Wl,--wrap=$(w))
 
 XCM_OBJS   := $(patsubst %.c,$(B)/repo/%.o,$(XCM_SRCS))
